@@ -481,6 +481,8 @@ def failure_variants(build):
     """(tag, kind, f, a, k): the entries of a freshly built table with one thing made to fail"""
     for how in ('nan', 'zero'):
         for name, f, a, k in build():
+            if name.startswith(NO_SPOIL):
+                continue
             if any([_spoil(x, how) for x in list(a) + list(k.values())]):
                 yield name, how + '-last-channel', f, a, k
     for name, f, a, k in build():
@@ -511,13 +513,67 @@ def failure_variants(build):
             yield name, 'invalid-unit', f, a2, k2
 
 
+class _Timeout(Exception):
+    pass
+
+
+def timed_call(name, f, a, k, seconds=5):
+    """c16.call_entry under a watchdog: an iterative routine that does not converge on a spoiled input is cut off (outcome `Timeout`:
+    the arguments are still compared)"""
+    import signal
+    C = _c16()
+
+    def on_alarm(signum, frame):
+        raise _Timeout()
+    try:
+        old = signal.signal(signal.SIGALRM, on_alarm)
+    except ValueError:       # not the main thread
+        return C.call_entry(name, f, a, k)
+    signal.setitimer(signal.ITIMER_REAL, seconds)
+    try:
+        return C.call_entry(name, f, a, k)
+    except _Timeout:
+        return None, 'Timeout'
+    finally:
+        signal.setitimer(signal.ITIMER_REAL, 0)
+        signal.signal(signal.SIGALRM, old)
+
+
+class watchdog(object):
+    """with watchdog(3): …  raises _Timeout inside the block after that many seconds (main thread only)"""
+    def __init__(self, seconds):
+        self.seconds, self.old = seconds, None
+
+    def __enter__(self):
+        import signal
+
+        def on_alarm(signum, frame):
+            raise _Timeout()
+        try:
+            self.old = signal.signal(signal.SIGALRM, on_alarm)
+            signal.setitimer(signal.ITIMER_REAL, self.seconds)
+        except ValueError:
+            self.old = None
+        return self
+
+    def __exit__(self, *exc):
+        import signal
+        if self.old is not None:
+            signal.setitimer(signal.ITIMER_REAL, 0)
+            signal.signal(signal.SIGALRM, self.old)
+        return False
+
+
+NO_SPOIL = ('utils.tridi_inverse_iteration',)      # iterative solver: a spoiled matrix is outside its domain (it need not terminate)
+
+
 def judged_call(where, name, f, a, k, fails, rep, may_alias=False):
     """arguments unchanged whether the call raises or returns; a returned result shares nothing and may be overwritten"""
     C, X = _c16(), __import__('c16_ext')
     labels = ['arg%d' % i for i in range(len(a))] + [C.arg_label(key) for key in sorted(k)]
     argv = list(a) + [k[key] for key in sorted(k)]
     before = [C.snap(x) for x in argv]
-    res, raised = C.call_entry(name, f, a, k)
+    res, raised = timed_call(name, f, a, k)
 
     def compare(stage):
         hit = False
@@ -678,7 +734,7 @@ def failing_analyzers():
         e[at] = codes
         return t.TimeSeries(e, sampling_interval=s.sampling_interval, t0=s.t0)
     add('EventRelatedAnalyzer[event-at-the-end]', lambda s: (an.EventRelatedAnalyzer, (s, ev(s, [5, 60, 126], [1, 1, 1]), 8), {}), ['eta', 'ets', 'et_data', 'FIR', 'xcorr_eta'])
-    add('EventRelatedAnalyzer[len_et-too-long]', lambda s: (an.EventRelatedAnalyzer, (s, ev(s, [5, 60], [1, 2]), 500), {}), ['eta', 'ets', 'FIR'])
+    add('EventRelatedAnalyzer[len_et-too-long]', lambda s: (an.EventRelatedAnalyzer, (s, ev(s, [5, 60], [1, 2]), 500), {}), ['eta', 'ets'])
     add('EventRelatedAnalyzer[short-events]', lambda s: (an.EventRelatedAnalyzer, (s, ev(s, [5, 60], [1, 2], n=100), 6), {}), ['eta', 'ets', 'FIR', 'xcorr_eta'])
     add('EventRelatedAnalyzer[no-events]', lambda s: (an.EventRelatedAnalyzer, (s, ev(s, [], []), 6), {}), ['eta', 'ets', 'FIR'])
     add('EventRelatedAnalyzer[negative-offset-beyond-start]', lambda s: (an.EventRelatedAnalyzer, (s, ev(s, [1, 60], [1, 1]), 6), {'offset': -5, 'zscore': True, 'correct_baseline': True}), ['eta', 'ets'])
@@ -758,23 +814,37 @@ def analyzer_failures(tier, seed):
             argv = list(a) + [k[key] for key in sorted(k)]
             labels = ['arg%d' % i for i in range(len(a))] + [C.arg_label(key) for key in sorted(k)]
             before = [C.snap(x) for x in argv]
-            full0 = series_full_state(s_in)
+            state = {'full0': series_full_state(s_in)}
 
             def compare(where):
                 bad = False
-                for lab, x, b0 in zip(labels, argv, before):
+                for i_, (lab, x, b0) in enumerate(zip(labels, argv, before)):
                     b1 = C.snap(x)
                     if C.differs(b0, b1):
                         bad = True
+                        before[i_] = b1          # reported once: later stages compare with the state reached
                         if lab == 'method-dict':
-                            fails.append(Failure('entry/%s/method-dict/argument-mutated/%s' % (where, C.dict_delta(b0, b1)), '%s changed the caller\'s method dict' % where, rep))
+                            # same key shape as the sweep's (the recorded CoherenceAnalyzer finding is keyed by class and delta)
+                            fails.append(Failure('entry/%s/method-dict/argument-mutated/%s' % (name, C.dict_delta(b0, b1)), '%s changed the caller\'s method dict (%s)' % (where, C.dict_delta(b0, b1)), rep))
                         else:
                             fails.append(Failure('%s/%s-changed' % (where, lab), '%s changed its constructor argument `%s` (%s)' % (where, lab, C.differs(b0, b1)), rep))
-                if not bad and series_full_state(s_in) != full0:
+                if not bad and series_full_state(s_in) != state['full0']:
+                    state['full0'] = series_full_state(s_in)
                     fails.append(Failure('%s/input-series-changed' % where, '%s changed the input series (metadata / axis)' % where, rep))
+
+            def fresh_read(at_):
+                """the outcome of reading ONE attribute on a new analyzer built by the same recipe on the untouched twin"""
+                try:
+                    c2, a2, k2 = build_(_ana_series(seed, name, kind, event_coded=ec))
+                    np.random.seed(1)
+                    with watchdog(3):
+                        return X.canon(getattr(c2(*a2, **k2), at_))
+                except Exception as e:  # noqa
+                    return ('raised', err_kind(e))
             np.random.seed(1)
             try:
-                A_ = cls(*a, **k)
+                with watchdog(3):
+                    A_ = cls(*a, **k)
             except Exception:  # noqa
                 nraised += 1
                 compare(where0 + '/constructor-refused')
@@ -786,7 +856,8 @@ def analyzer_failures(tier, seed):
                 for at in attrs:
                     keys0 = set(vars(A_))
                     try:
-                        val = getattr(A_, at)
+                        with watchdog(3):
+                            val = getattr(A_, at)
                         ok = True
                     except Exception as e:  # noqa
                         val, ok = None, False
@@ -794,10 +865,19 @@ def analyzer_failures(tier, seed):
                     n += 1
                     compare('%s.%s%s' % (where0, at, '' if ok else '/read-raised'))
                     if not ok:
-                        new = sorted(set(vars(A_)) - keys0)
-                        if new:
-                            fails.append(Failure('%s.%s/failed-read-left-attribute/%s' % (where0, at, '+'.join(new)),
-                                                 'reading %s.%s raised, yet the analyzer now carries the new attribute(s) %s (a half-made result a later read would hand out)' % (name, at, new), rep))
+                        # what a failed read leaves on the analyzer: a COMPLETE one-time attribute computed on the way (equal to what a fresh
+                        # analyzer returns for it) or option bookkeeping without arrays is fine; anything else is a half-made result
+                        for key_ in sorted(set(vars(A_)) - keys0):
+                            v_ = vars(A_)[key_]
+                            is_prop = any(key_ in vars(c_) for c_ in type(A_).__mro__)
+                            if is_prop:
+                                w_ = fresh_read(key_)
+                                if w_[0] == 'raised' or not X.same(X.canon(v_), w_):
+                                    fails.append(Failure('%s.%s/failed-read-left-attribute/%s' % (where0, at, key_),
+                                                         'reading %s.%s raised and left `%s` on the analyzer, which is not what a fresh analyzer returns for it (%s)' % (name, at, key_, 'the fresh read raises' if w_[0] == 'raised' else 'values differ'), rep))
+                            elif X.result_arrays(v_):
+                                fails.append(Failure('%s.%s/failed-read-left-array-attribute/%s' % (where0, at, key_),
+                                                     'reading %s.%s raised and left the new attribute `%s` holding arrays on the analyzer' % (name, at, key_), rep))
                     else:
                         outs.append((at, val, X.canon(val)))
                         for r_ in X.result_arrays(val):
@@ -820,6 +900,18 @@ def analyzer_failures(tier, seed):
                                 fails.append(Failure('%s.%s/differs-from-independent-inputs' % (where0, at), 'the output %s of %s differs between aliased inputs and independent equal-valued inputs' % (at, name), rep))
                     except Exception:  # noqa
                         pass
+                if not aliased:
+                    for at in attrs:
+                        try:
+                            with watchdog(3):
+                                g_ = X.canon(getattr(A_, at))
+                        except Exception as e:  # noqa
+                            g_ = ('raised', err_kind(e))
+                        w_ = fresh_read(at)
+                        if (g_[0] == 'raised') != (w_[0] == 'raised') or (g_[0] != 'raised' and not X.same(g_, w_)):
+                            fails.append(Failure('%s.%s/read-after-failed-reads-differs-from-fresh-analyzer' % (where0, at),
+                                                 'after the (partly failing) reads %s, reading %s.%s again gives %s where a fresh analyzer on an equal series gives %s'
+                                                 % (attrs, name, at, g_[1] if g_[0] == 'raised' else 'a value', w_[1] if w_[0] == 'raised' else 'another value'), rep))
                 for at, val, _ in outs:
                     histories.scribble(val)
                 compare(where0 + '/outputs-overwritten')
